@@ -13,6 +13,7 @@ import (
 	"strings"
 	"sync"
 	"sync/atomic"
+	"unsafe"
 )
 
 var (
@@ -111,4 +112,87 @@ func stackOK() bool {
 	}
 	verdict[key] = ok
 	return ok
+}
+
+// ---- owned selects. An overlay copy asks Sel before every blocking receive-only select with several cases which of
+// the ready cases is to be taken (tools_instr, ownSelect); the Go runtime would draw a random number there. SelHook is
+// installed by the harness; it is asked only when at least two cases are ready, gets their indices and returns the one
+// to take.
+
+var SelHook func(id string, ready []int) int
+
+var SelSeen atomic.Int64 // selects that had several ready cases
+
+func Sel(id string, ready ...bool) int {
+	h := SelHook
+	if h == nil {
+		return -1
+	}
+	var idx []int
+	for i, r := range ready {
+		if r {
+			idx = append(idx, i)
+		}
+	}
+	if len(idx) < 2 {
+		return -1
+	}
+	SelSeen.Add(1)
+	return h(id, idx)
+}
+
+// hchan is the head of runtime.hchan of go1.26 (checked by selfTest before the first use).
+type hchan struct {
+	qcount   uint
+	dataqsiz uint
+	buf      unsafe.Pointer
+	elemsize uint16
+	closed   uint32
+	timer    unsafe.Pointer
+	elemtype unsafe.Pointer
+	sendx    uint
+	recvx    uint
+	recvqF   unsafe.Pointer
+	recvqL   unsafe.Pointer
+	sendqF   unsafe.Pointer
+	sendqL   unsafe.Pointer
+}
+
+func ready(p unsafe.Pointer) bool {
+	if p == nil {
+		return false
+	}
+	c := (*hchan)(p)
+	if c.timer != nil {
+		return false // a timer channel is filled lazily by the receive itself: not judged, its select stays the runtime's
+	}
+	return c.qcount > 0 || c.closed != 0 || c.sendqF != nil
+}
+
+// Rdy reports whether a receive from ch would not block right now. Only meaningful while no other goroutine runs
+// (GOMAXPROCS=1 in a bubble); false whenever no SelHook is installed.
+func Rdy[T any](ch <-chan T) bool {
+	if SelHook == nil {
+		return false
+	}
+	selfTestOnce.Do(selfTest)
+	return ready(*(*unsafe.Pointer)(unsafe.Pointer(&ch)))
+}
+
+var selfTestOnce sync.Once
+
+func selfTest() {
+	p := func(ch chan int) unsafe.Pointer { return *(*unsafe.Pointer)(unsafe.Pointer(&ch)) }
+	a, b, c, d := make(chan int), make(chan int, 2), make(chan int), make(chan struct{})
+	b <- 1
+	close(c)
+	var e chan int
+	ok := !ready(p(a)) && ready(p(b)) && ready(p(c)) && !ready(p(e)) && (*hchan)(p(b)).dataqsiz == 2 && (*hchan)(p(b)).elemsize == 8
+	<-b
+	ok = ok && !ready(p(b))
+	close(d)
+	ok = ok && ready(*(*unsafe.Pointer)(unsafe.Pointer(&d)))
+	if !ok {
+		panic("zzverif/pause: runtime.hchan does not have the layout this build assumes")
+	}
 }
